@@ -59,7 +59,8 @@ def impl(case):
     rs = np.random.default_rng(case['seed'])
     H = T.hamiltonian(case['model'], case['L'], rs)
     L = H.nsites
-    psi = T.state(H, rs, Dmax=case['Dmax'], complete=case['complete'], dtype=case.get('sdtype', 'complex'))
+    info = {}
+    psi = T.state(H, rs, Dmax=case['Dmax'], complete=case['complete'], dtype=case.get('sdtype', 'complex'), info=info)
     psi.A[-1] = psi.A[-1] * case['scale']
     v0 = G.mps_dense(psi.A)
     n0 = float(np.linalg.norm(v0))
@@ -98,7 +99,7 @@ def impl(case):
         return {'error': type(e).__name__, 'detail': '%s [%s:%d]' % (str(e)[:160], tb.filename.split('/')[-1], tb.lineno)}
     return {'reported': reported, 'finals': finals, 'norms': norms, 'e_start': e_start, 'e_gs': e_gs, 'H_unchanged': dig() == h0,
             'hscale': float(np.linalg.norm(Hd, 2)), 'dims0': None, 'dims': [int(x) for x in psi.bond_dims], 'sparsity': G.mps_sparsity_ok(psi),
-            'sweeps': case['sweeps'], 'complete': case['complete'], 'runs': runs, 'H': SR.enc_mpo(H, numeric)}
+            'sweeps': case['sweeps'], 'complete': case['complete'], 'mixed': [bool(x) for x in info.get('mixed', [])], 'charged': bool(np.any(np.asarray(H.qd))), 'runs': runs, 'H': SR.enc_mpo(H, numeric)}
 
 
 def prop(case, r):
@@ -134,6 +135,17 @@ def prop(case, r):
     if r['sparsity']:
         msgs.append('block sparsity / list lengths broken: %s' % r['sparsity'])
     return msgs
+
+
+def finding_key(case, r, msgs):
+    """known findings: with quantum numbers in play (non-zero physical charges) DMRG on a sector-complete manifold can stay above the sector ground
+    energy -- the first local optimisations project the state exactly onto an excited eigenvector / onto a distribution of charges over the bonds
+    that later local problems cannot leave (every later Lanczos run starts from an exact eigenvector of its local problem).  Without charges the
+    clause is not covered by any key: a failure there is a violation."""
+    if (case.get('complete') and r.get('charged') and 'reported' in r and len(msgs) == 1
+            and msgs[0].startswith('complete manifold: final energy')):
+        return 'dmrg-%ssite-charge-sector-local-minimum' % ('single' if case['kind'] == 'single' else 'two')
+    return None
 
 
 def coq(case, r):
